@@ -11,11 +11,11 @@ namespace C11
 /-- `RectClipLines64` declares its own `Execute` -/
 theorem linesExecute_uses_line_machine :
     ∃ ms, ("RectClipLines64", ms) ∈ Facts.ownMethods ∧ "Execute" ∈ ms := by
-  sorry
+  exact ⟨["Execute"], by decide⟩
 
 /-- and the polygon clipper still owns the line state machine it calls -/
 theorem line_machine_exists :
     ∃ ms, ("RectClip64", ms) ∈ Facts.ownMethods ∧ "executeInternalPath64" ∈ ms ∧ "executeInternal" ∈ ms := by
-  sorry
+  exact ⟨["Execute", "add", "addCorner", "addCornerLocation", "checkEdges", "executeInternal", "executeInternalPath64", "getNextLocation", "path1ContainsPath2", "tidyEdgePair"], by decide⟩
 
 end C11
